@@ -158,12 +158,20 @@ func (el *eventloop) cread(c *conn) error {
 
 		out, action := el.eventHandler.OnCReact(r, c)
 		if out != nil {
-			// Encode data and try to write it back to the peer, this attempt is based on a fact:
-			// the peer socket waits for the response data after sending request data to the server,
-			// which makes the peer socket writable.
-			MsgPool.Put(r)
-			if _, err = c.write(out); err != nil {
-				return err
+			if !c.inMsgQueue.Empty() {
+				// earlier requests of this client are still waiting for their backends: the locally
+				// produced reply takes its place in the queue so that replies leave in request order
+				r.RspBody = append(r.RspBody[:0], out...)
+				r.Done = true
+				c.EnqueueInMsg(r)
+			} else {
+				// Encode data and try to write it back to the peer, this attempt is based on a fact:
+				// the peer socket waits for the response data after sending request data to the server,
+				// which makes the peer socket writable.
+				MsgPool.Put(r)
+				if _, err = c.write(out); err != nil {
+					return err
+				}
 			}
 		}
 		switch action {
